@@ -1330,3 +1330,340 @@ func boolCaseRule(r *Report, p *Prog, rule string) int {
 	}
 	return n
 }
+
+// letterRangeRule (C11.f LETTER-RANGE): the hand-written case folds and class
+// tests of package semver compare a byte with the ends of 'A'..'Z', 'a'..'z' or
+// '0'..'9'. A test that leaves out the end letter itself (c < 'Z', or the
+// one-comparison form c-'A' < 'Z'-'A') folds A..Y only: a NuGet tag holding a Z
+// then compares differently from its printed, lower-cased form, and the set
+// parsed back from the text matches differently. Every comparison with an end of
+// one of the three ranges is of the inclusive kind (>= lower end, <= upper end,
+// or their negations), and a subtract-and-compare form spans exactly 26 (10).
+func letterRangeRule(r *Report, p *Prog, rule string) int {
+	lower := map[int64]int{'A': 26, 'a': 26, '0': 10}
+	upper := map[int64]bool{'Z': true, 'z': true, '9': true}
+	n := 0
+	for _, f := range p.Funcs {
+		if f.Pkg == nil || f.Blocks == nil || f.Synthetic != "" || f.Pkg.Pkg.Path() != modPrefix+"semver" {
+			continue
+		}
+		per := 0
+		for _, b := range f.Blocks {
+			for _, in := range b.Instrs {
+				bo, ok := in.(*ssa.BinOp)
+				if !ok {
+					continue
+				}
+				op := bo.Op
+				if op != token.LSS && op != token.LEQ && op != token.GTR && op != token.GEQ {
+					continue
+				}
+				x, y := bo.X, bo.Y
+				kc, isK := y.(*ssa.Const)
+				if !isK {
+					// constant on the left: mirror
+					if kl, ok := x.(*ssa.Const); ok {
+						kc, isK = kl, true
+						x = y
+						switch op {
+						case token.LSS:
+							op = token.GTR
+						case token.GTR:
+							op = token.LSS
+						case token.LEQ:
+							op = token.GEQ
+						case token.GEQ:
+							op = token.LEQ
+						}
+					}
+				}
+				if !isK || kc.Value == nil || kc.Value.Kind() != constant.Int {
+					continue
+				}
+				bt, ok := x.Type().Underlying().(*types.Basic)
+				if !ok || bt.Info()&types.IsInteger == 0 || (bt.Kind() != types.Uint8 && bt.Kind() != types.Int32) {
+					continue // bytes and runes only
+				}
+				k, _ := constant.Int64Val(kc.Value)
+				// subtract-and-compare
+				if sub, ok := x.(*ssa.BinOp); ok && sub.Op == token.SUB {
+					if base, ok := sub.Y.(*ssa.Const); ok && base.Value != nil && base.Value.Kind() == constant.Int {
+						bv, _ := constant.Int64Val(base.Value)
+						if want, ok := lower[bv]; ok {
+							n++
+							per++
+							key := fmt.Sprintf("%s: range test #%d spans the whole range", fnKey(f), per)
+							width := int64(-1)
+							switch op {
+							case token.LSS, token.GEQ:
+								width = k
+							case token.LEQ, token.GTR:
+								width = k + 1
+							}
+							if width == int64(want) {
+								r.ok(rule, key, p.pos(bo.Pos()), fmt.Sprintf("%d values from %q", width, rune(bv)))
+							} else {
+								r.bad(rule, key, p.pos(bo.Pos()), fmt.Sprintf("the one-comparison range test starting at %q accepts %d values, not %d: the last letter of the range is left out (an upper-case Z in a NuGet tag is not folded, so the tag compares differently from its printed, lower-cased form)", rune(bv), width, want))
+							}
+						}
+					}
+					continue
+				}
+				_, isLower := lower[k]
+				if !isLower && !upper[k] {
+					continue
+				}
+				n++
+				per++
+				key := fmt.Sprintf("%s: range test #%d includes the end %q", fnKey(f), per, rune(k))
+				good := (isLower && (op == token.GEQ || op == token.LSS)) || (upper[k] && (op == token.LEQ || op == token.GTR))
+				if good {
+					r.ok(rule, key, p.pos(bo.Pos()), "the comparison is of the inclusive kind")
+				} else {
+					r.bad(rule, key, p.pos(bo.Pos()), fmt.Sprintf("a byte is compared with the end %q of a letter or digit range in a way that leaves the end itself out: the range test misses that one character", rune(k)))
+				}
+			}
+		}
+	}
+	return n
+}
+
+// constraintImpliesVersionsRule (C04.9 CONSTRAINT-IMPLIES-VERSIONS): a parsed
+// marker comparison carries a semver constraint when it "appears to be a
+// version comparison"; Eval then hands the LEFT operand's parsed version to
+// Constraint.MatchVersion, which dereferences it. The invariant "constraint set
+// implies both operands have a parsed version" is established in one place, the
+// store of the constraint in parseMarkerExpr, which must be behind nil tests of
+// the version of two different operands. With the left test gone,
+// platform_release >= "9.0" parses, and Resolve panics when it evaluates it.
+func constraintImpliesVersionsRule(r *Report, p *Prog, rule string) int {
+	n := 0
+	for _, f := range p.Funcs {
+		if f.Pkg == nil || f.Blocks == nil || f.Synthetic != "" || f.Pkg.Pkg.Path() != modPrefix+"resolve/pypi" {
+			continue
+		}
+		for _, b := range f.Blocks {
+			for _, in := range b.Instrs {
+				st, ok := in.(*ssa.Store)
+				if !ok {
+					continue
+				}
+				fa, ok := st.Addr.(*ssa.FieldAddr)
+				if !ok {
+					continue
+				}
+				pt, ok := fa.X.Type().Underlying().(*types.Pointer)
+				if !ok || !strings.HasSuffix(pt.Elem().String(), "pypi.markerExpr") {
+					continue
+				}
+				if pt.Elem().Underlying().(*types.Struct).Field(fa.Field).Name() != "constraint" {
+					continue
+				}
+				if k, ok := st.Val.(*ssa.Const); ok && k.IsNil() {
+					continue
+				}
+				n++
+				key := fmt.Sprintf("%s: constraint #%d is stored only when both operands have a parsed version", fnKey(f), n)
+				var bases []ssa.Value
+				for _, g := range f.Blocks {
+					if len(g.Instrs) == 0 || !(g.Dominates(b)) || g == b {
+						continue
+					}
+					ifi, ok := g.Instrs[len(g.Instrs)-1].(*ssa.If)
+					if !ok {
+						continue
+					}
+					bo, ok := ifi.Cond.(*ssa.BinOp)
+					if !ok || (bo.Op != token.NEQ && bo.Op != token.EQL) {
+						continue
+					}
+					// the non-nil side must be the one leading to the store
+					side := g.Succs[0]
+					if bo.Op == token.EQL {
+						side = g.Succs[1]
+					}
+					if !(side == b || side.Dominates(b)) {
+						continue
+					}
+					var ptr ssa.Value
+					if c, ok := bo.Y.(*ssa.Const); ok && c.IsNil() {
+						ptr = bo.X
+					} else if c, ok := bo.X.(*ssa.Const); ok && c.IsNil() {
+						ptr = bo.Y
+					}
+					var base ssa.Value
+					var fieldName string
+					switch x := ptr.(type) {
+					case *ssa.UnOp:
+						if a, ok := x.X.(*ssa.FieldAddr); ok && x.Op == token.MUL {
+							if pp, ok := a.X.Type().Underlying().(*types.Pointer); ok {
+								if s, ok := pp.Elem().Underlying().(*types.Struct); ok {
+									base, fieldName = a.X, s.Field(a.Field).Name()
+								}
+							}
+						}
+					case *ssa.Field:
+						if s, ok := x.X.Type().Underlying().(*types.Struct); ok {
+							base, fieldName = x.X, s.Field(x.Field).Name()
+						}
+					}
+					if base == nil || fieldName != "version" {
+						continue
+					}
+					dup := false
+					for _, o := range bases {
+						if o == base {
+							dup = true
+						}
+					}
+					if !dup {
+						bases = append(bases, base)
+					}
+				}
+				if len(bases) >= 2 {
+					r.ok(rule, key, p.pos(st.Pos()), "behind non-nil tests of the parsed version of two operands")
+				} else {
+					r.bad(rule, key, p.pos(st.Pos()), fmt.Sprintf("the constraint of a marker comparison is stored behind a non-nil test of the parsed version of %d operand(s), not both: Eval hands the left operand's version to Constraint.MatchVersion whenever the constraint is set, so platform_release >= \"9.0\" (left side not a version) makes Resolve panic on a nil *semver.Version", len(bases)))
+				}
+			}
+		}
+	}
+	return n
+}
+
+// clearOnAllPathsRule (C12.n TAGS-ALL-OR-NONE): opVersionToSpan builds the upper
+// bound of a span from a copy of the operand; for the operators whose upper
+// bound is a bumped version (^, ~, >, ...) the copy's prerelease tags are dropped
+// with clearPre before the span is made, for the others they are kept. A call of
+// newSpan that is reached by some paths on which the upper bound's tags were
+// cleared and by others on which they were not is a contradiction: one of the
+// two is wrong (with the clear moved under "if minor != 0", ^0.0.3-beta keeps
+// the tag on its upper bound and collapses to the single version 0.0.3-beta).
+func clearOnAllPathsRule(r *Report, p *Prog, rule string) int {
+	f := p.lookupFn("semver.opVersionToSpan")
+	if f == nil || f.Blocks == nil {
+		r.bad(rule, "semver.opVersionToSpan", "", "function not found: anchor lost")
+		return 0
+	}
+	type site struct {
+		b   *ssa.BasicBlock
+		idx int
+		c   *ssa.Call
+	}
+	var clears, spans []site
+	for _, b := range f.Blocks {
+		for i, in := range b.Instrs {
+			c, ok := in.(*ssa.Call)
+			if !ok {
+				continue
+			}
+			switch staticCalleeName(c) {
+			case "(*semver.Version).clearPre":
+				clears = append(clears, site{b, i, c})
+			case "semver.newSpan":
+				spans = append(spans, site{b, i, c})
+			}
+		}
+	}
+	// the entries of the operator cases: true successors of the tests of the
+	// operator parameter against a constant
+	// the switch starts after the upper bound is made (hi := lo.copy())
+	var copyBlock *ssa.BasicBlock
+	for _, b := range f.Blocks {
+		for _, in := range b.Instrs {
+			if c, ok := in.(*ssa.Call); ok && staticCalleeName(c) == "(*semver.Version).copy" && copyBlock == nil {
+				copyBlock = b
+			}
+		}
+	}
+	if copyBlock == nil {
+		r.bad(rule, fnKey(f)+": upper bound", p.pos(f.Pos()), "the copy that makes the upper bound was not found: anchor lost")
+		return 0
+	}
+	var entries []*ssa.BasicBlock
+	for _, b := range f.Blocks {
+		if len(b.Instrs) == 0 || !(b == copyBlock || copyBlock.Dominates(b)) {
+			continue
+		}
+		ifi, ok := b.Instrs[len(b.Instrs)-1].(*ssa.If)
+		if !ok {
+			continue
+		}
+		bo, ok := ifi.Cond.(*ssa.BinOp)
+		if !ok || bo.Op != token.EQL {
+			continue
+		}
+		if pr, ok := bo.X.(*ssa.Parameter); ok && pr == f.Params[0] {
+			if _, ok := bo.Y.(*ssa.Const); ok {
+				entries = append(entries, b.Succs[0])
+			}
+		}
+	}
+	if len(entries) < 5 {
+		r.bad(rule, fnKey(f)+": operator cases", p.pos(f.Pos()), fmt.Sprintf("only %d cases of the operator switch were recognised: anchor lost", len(entries)))
+		return 0
+	}
+	n := 0
+	for ei, entry := range entries {
+		for si, s := range spans {
+			lo, hi := s.c.Common().Args[0], s.c.Common().Args[2]
+			if lo == hi {
+				continue
+			}
+			if !(entry == s.b || reaches(entry, s.b, nil)) {
+				continue
+			}
+			cb := map[*ssa.BasicBlock]int{}
+			for _, c := range clears {
+				if a := c.c.Common().Args[0]; a == hi || sameVar(a, hi) {
+					if old, ok := cb[c.b]; !ok || c.idx < old {
+						cb[c.b] = c.idx
+					}
+				}
+			}
+			clearedHere := false
+			if i, ok := cb[s.b]; ok && i < s.idx {
+				clearedHere = true
+			}
+			without := false
+			if !clearedHere {
+				seen := map[*ssa.BasicBlock]bool{}
+				var walk func(b *ssa.BasicBlock)
+				walk = func(b *ssa.BasicBlock) {
+					if seen[b] || without {
+						return
+					}
+					seen[b] = true
+					if b == s.b {
+						without = true
+						return
+					}
+					if _, ok := cb[b]; ok {
+						return
+					}
+					for _, nx := range b.Succs {
+						walk(nx)
+					}
+				}
+				walk(entry)
+			}
+			with := clearedHere
+			for b := range cb {
+				if b != s.b && (b == entry || reaches(entry, b, nil)) && reaches(b, s.b, nil) {
+					with = true
+				}
+			}
+			if !with {
+				continue
+			}
+			n++
+			key := fmt.Sprintf("%s: operator case #%d, span #%d: the upper bound's tags are cleared on all paths or on none", fnKey(f), ei+1, si+1)
+			if without {
+				r.bad(rule, key, p.pos(s.c.Pos()), "within one operator, this span is made after clearPre on its upper bound along some paths and without it along others: for some operands the upper bound keeps the operand's prerelease tags (^0.0.3-beta becomes the single version 0.0.3-beta instead of [0.0.3-beta:0.0.3])")
+			} else {
+				r.ok(rule, key, p.pos(s.c.Pos()), "every path of this operator to the call clears the tags of the upper bound first")
+			}
+		}
+	}
+	return n
+}
